@@ -37,6 +37,7 @@ SPEC_FIELDS = ('kind', 'at_bol')
 MAX_PATHS_FN = 4000
 MAX_PATHS_MAIN = 6000
 BUDGET_S = 22.0
+LOOP_LIMIT = 2
 
 
 def _base_of(t):
@@ -189,7 +190,7 @@ class Lines:
                 cuts[n] = {'self': self.h_self, 'inline': self.h_inline, 'summ': self.h_summ, 'cut': self.h_cut}[k]
         if 'equal' in cuts and 'equal' not in self.u.functions:
             cuts['equal'] = self.h_equal
-        cfg = {'inline_other_units': False, 'cut': cuts, 'loop_limit': 1, 'assume': assume}
+        cfg = {'inline_other_units': False, 'cut': cuts, 'loop_limit': LOOP_LIMIT, 'assume': assume}
         return DirInterp(self.P, self.u, cfg, headcut, self.posfields)
 
     def _check_budget(self):
@@ -286,6 +287,13 @@ class Lines:
             return 1 if s == INTRO else 0          # the iteration is entered on the directive introducer
         if isinstance(a, Obj) and isinstance(s, str) and s and self.known(it, a, 'kind') == self.EOF:
             return 0                               # the end-of-input token has no spelling
+        # the same question about the same token has the same answer on a path
+        if isinstance(s, str) and (isinstance(a, Obj) or isinstance(a, View)):
+            memo = ctx.__dict__.setdefault('c18_equal', {})
+            mk = (id(a) if isinstance(a, Obj) else id(a.cell), s)
+            if mk not in memo:
+                memo[mk] = (a, self.h_cut(it, ctx, call, args))
+            return memo[mk][1]
         return self.h_cut(it, ctx, call, args)
 
     def h_self(self, it, ctx, call, args):
@@ -535,6 +543,7 @@ class Lines:
         paths = self._explore(it, F, lambda ctx: [Obj('Token', lazy=True, label='param:%s' % p.name) if _base_of(p.dtype or p.type) == 'Token'
                                                   else Sym('param:%s' % p.name, p.dtype or p.type) for p in u.params(F)], MAX_PATHS_MAIN)
         sites = {}
+        dnames = set()
         ndir = 0
         for ctx, out in paths:
             root = getattr(ctx, 'c18_root', None)
@@ -543,12 +552,29 @@ class Lines:
             ndir += 1
             ch = self.chain(it, root)
             pos = {id(o): k for k, o in enumerate(ch)}
+            # which directive this iteration handles: the name the token after the introducer compared equal to
+            dname = None
+            nx = root.fields.get('next')
+            for e in ctx.events:
+                if e[0] == 'call' and e[1] == 'equal' and len(e[2]) > 1 and isinstance(e[2][1], str) and nx is not None:
+                    a = e[2][0]
+                    r = it.settle(e[4]) if isinstance(e[4], View) else e[4]
+                    same = (isinstance(a, View) and isinstance(nx, View) and a.cell is nx.cell) or \
+                           (isinstance(it.settle(a) if isinstance(a, View) else a, Obj) and (it.settle(a) if isinstance(a, View) else a) is (it.settle(nx) if isinstance(nx, View) else nx))
+                    if same and isinstance(r, int) and r == 1:
+                        dname = e[2][1]
+                        break
+            if dname is None:
+                dname = 'no-name'
+            dnames.add(dname)
             for e in ctx.events:
                 if e[0] != 'c18ev':
                     continue
                 typ, key, where, v, extra = e[1:6]
                 v = it.settle(v) if isinstance(v, View) else v
-                s = sites.setdefault(key, {'where': where, 'type': typ, 'what': extra, 'n': 0, 'behind': 0, 'other': 0, 'ex': None, 'on': None})
+                head, _, tail = key.rpartition('/')
+                key = '%s/#%s/%s' % (head, re.sub(r'[^A-Za-z0-9_]+', '-', dname), tail)
+                s = sites.setdefault(key, {'where': where, 'type': typ, 'what': extra, 'directive': dname, 'n': 0, 'behind': 0, 'other': 0, 'ex': None, 'on': None})
                 if isinstance(v, Obj) and id(v) in pos:
                     k = pos[id(v)]
                     cross = [(j, self.ends_line(it, ch[j])) for j in range(1, k + 1) if self.ends_line(it, ch[j])]
@@ -562,6 +588,7 @@ class Lines:
                         s['on'] = k
                 else:
                     s['other'] += 1
+        self.dnames = dnames
         return sites, ndir, len(paths)
 
 
@@ -583,7 +610,7 @@ def _show_sig(sig):
 
 def r189(P, rep):
     rep.rule('R18.9', 'a diagnostic raised while a preprocessing directive is processed (and a token kept for a later diagnostic about it) is located on the directive: '
-             'never, on every path that reaches it, at a token behind the end of the directive\'s line (the continuation that skip_line / copy_line hand back)', floor=10)
+             'never, on every path that reaches it, at a token behind the end of the directive\'s line (the continuation that skip_line / copy_line hand back)', floor=15)
     L = Lines(P)
     un = L.u.name
     W = '%s:%d' % (un, L.u.fn(L.F).line)
@@ -595,16 +622,16 @@ def r189(P, rep):
         judged += 1
         bad = s['behind'] == s['n']
         if s['type'] == 'diag':
-            msg = ('the diagnostic `%s` is located, on all %d explored paths that reach it from the directive loop of %s, at a token BEHIND the end of the directive\'s line '
+            msg = ('the diagnostic `%s` of a `#%s` directive is located, on all %d explored paths that reach it from the directive loop of %s, at a token BEHIND the end of the directive\'s line '
                    '(%s; the line ends at %s): the message names the line -- after the last directive of a header, the file -- of whatever follows the directive, not the directive' % (
-                       s['what'], s['n'], L.F, (s['ex'] or {}).get('token'), (s['ex'] or {}).get('line ends at')))
+                       s['what'], s['directive'], s['n'], L.F, (s['ex'] or {}).get('token'), (s['ex'] or {}).get('line ends at')))
         else:
-            msg = ('the token stored in %s, which a later diagnostic is located at, is on all %d explored paths a token BEHIND the end of the directive\'s line (%s): '
-                   'that diagnostic will name the line after the directive' % (s['what'], s['n'], (s['ex'] or {}).get('token')))
+            msg = ('the token a `#%s` directive stores in %s, which a later diagnostic is located at, is on all %d explored paths a token BEHIND the end of the directive\'s line (%s): '
+                   'that diagnostic will name the line after the directive' % (s['directive'], s['what'], s['n'], (s['ex'] or {}).get('token')))
         rep.ob('R18.9', key, not bad, msg, where=s['where'], facts={'paths_with_a_token_of_the_directive': s['n'], 'of_those_behind_the_line': s['behind'],
                                                                     'paths_with_another_token': s['other'], 'example': s['ex']})
-    rep.extra.setdefault('R18.9', {}).update({'dispatcher': L.F, 'paths': npaths, 'summaries': L.nsumm, 'sites': len(sites), 'sites_judged': judged,
+    rep.extra.setdefault('R18.9', {}).update({'dispatcher': L.F, 'paths': npaths, 'summaries': L.nsumm, 'sites': len(sites), 'sites_judged': judged, 'directives': sorted(L.dnames),
                                               'position_fields': sorted('%s.%s' % x for x in L.posfields),
                                               'summarised': sorted(f for f, k in L.kind.items() if k == 'summ'), 'seconds': round(time.time() - L.t0, 1)})
-    if ndir == 0 or judged < 10:
+    if ndir == 0 or judged < 15:
         rep.undecided('R18.9', '%s:%s:liveness' % (un, L.F), 'only %d diagnostic sites are reached with a token of the directive on %d paths of a directive iteration' % (judged, ndir), where=W)
